@@ -38,7 +38,9 @@ def cb_desc(cb):
 
 def canon(v, depth=0):
     """Canonical, address-free, order-independent text of a value."""
-    if v is None or isinstance(v, (bool, int, float, str)):
+    if isinstance(v, str):
+        return repr(_UUID.sub("<uuid>", v))
+    if v is None or isinstance(v, (bool, int, float)):
         return repr(v)
     if depth > 6:
         return "<deep>"
